@@ -211,11 +211,8 @@ TypeOK == /\ reg \in 0..2 /\ myRelays \in 0..Cardinality(RelIds) /\ \A s \in Sub
 \* X09.b: never a live subscription / relay / handler without a registered handle, a registered handle is never closed
 P_X09_b_NoLiveSubOnClosedTopic == (mySubs # {} \/ myRelays > 0) => reg # 0
 P_X09_b_RegisteredIsOpen == reg # 0 => ~closed[reg]
-P_X09_b_ClosedHasNoHandlers == \A h \in Handles : closed[h] /\ (\A c \in Callers : ~(op[c] = "evcancel" /\ pc[c] # "done")) => TRUE
 \* X09.b: relay references are released exactly once each
 P_X09_b_RelayReleasedOnce == myRelays = Cardinality(granted \ released)
-\* X09.b: a successful Close means nothing was outstanding when it took effect: afterwards the handle's own bookkeeping is empty
-P_X09_b_CloseOnlyWhenIdle == \A c \in Callers : (op[c] = "close" /\ pc[c] = "setclosed" /\ res[c] = "ok") => (mySubs = {} /\ myRelays = 0)
 \* X09.d: nothing is returned after ErrSubscriptionCancelled, and only cancelled subscriptions report it
 P_X09_d_NothingAfterCancelled == \A s \in SubIds : sawCancelled[s] => (ch[s] = <<>> /\ s \notin mySubs)
 \* X09.c: what a subscription was handed is in delivery order without repetition (messages are caller ids, each published once)
